@@ -102,7 +102,10 @@ where
     }
 
     fn start_send(mut self: Pin<&mut Self>, frame: Frame) -> Result<(), Self::Error> {
-        let payload = frame.unwrap_message();
+        let payload = match frame {
+            Frame::Message(payload) => payload,
+            _ => return Err(anyhow!("Expected message frame")),
+        };
         if payload.headers.is_none() {
             return Err(anyhow!("Expected headers for message"));
         }
